@@ -1,11 +1,12 @@
 //! One module per property.
 use crate::framework::Check;
 pub mod c02;
+pub mod c03;
 pub mod c18;
 pub mod common;
 
 pub fn all() -> Vec<Box<dyn Check>> {
-    vec![Box::new(c02::C02), Box::new(c18::C18)]
+    vec![Box::new(c02::C02), Box::new(c03::C03), Box::new(c18::C18)]
 }
 
 pub fn by_id(id: &str) -> Option<Box<dyn Check>> {
